@@ -28,6 +28,9 @@ type corsCfg struct {
 	MaxAge  int      `json:"max_age"`
 	Headers []string `json:"allowed_headers,omitempty"`
 	Methods []string `json:"allowed_methods,omitempty"`
+	// EmptyNonNil: lists that are empty are handed over as empty non-nil slices ([]string{}, what decoding "[]" from a
+	// configuration file or filtering a list down to nothing yields) instead of nil
+	EmptyNonNil bool `json:"empty_lists_are_non_nil,omitempty"`
 }
 
 var originPool = []string{"http://example.com", "https://app.example.com", "http://localhost:8080", "https://a.b-c.io", "HTTP://Mixed.Example.ORG", "http://10.0.0.1"}
@@ -59,6 +62,9 @@ func genCorsCfg(r *core.Rand) *corsCfg {
 		c.Domains = append(c.Domains, " "+r.Pick(originPool)+" ") // an entry is compared as a whole, blanks included
 	case 2:
 		c.Domains = append(c.Domains, "", " ")
+	case 3:
+		// entries that look like patterns but are not the wildcard entry ".*": each is compared as a whole like any other
+		c.Domains = append(c.Domains, r.Pick([]string{"http://localhost:*", "*", "https://*.example.com", "http://example.com.*", ".*.example.com", "http://10.0.0.*"}))
 	}
 	if r.Chance(1, 3) {
 		c.HasPred = true
@@ -97,12 +103,21 @@ func genCorsCfg(r *core.Rand) *corsCfg {
 	case 2:
 		c.Methods = []string{"get", "POST"}
 	}
+	c.EmptyNonNil = r.Chance(1, 3)
 	return c
 }
 
+func nonNil(l []string, on bool) []string {
+	if on && len(l) == 0 {
+		return []string{}
+	}
+	return l
+}
+
 func (c *corsCfg) build(cont *restful.Container, tap *predTap) restful.CrossOriginResourceSharing {
-	x := restful.CrossOriginResourceSharing{AllowedDomains: c.Domains, CookiesAllowed: c.Cookies, ExposeHeaders: c.Expose, MaxAge: c.MaxAge,
-		AllowedHeaders: c.Headers, AllowedMethods: c.Methods, Container: cont}
+	e := c.EmptyNonNil
+	x := restful.CrossOriginResourceSharing{AllowedDomains: nonNil(c.Domains, e), CookiesAllowed: c.Cookies, ExposeHeaders: nonNil(c.Expose, e), MaxAge: c.MaxAge,
+		AllowedHeaders: nonNil(c.Headers, e), AllowedMethods: nonNil(c.Methods, e), Container: cont}
 	if c.HasPred {
 		set := map[string]bool{}
 		for _, p := range c.Pred {
